@@ -78,9 +78,18 @@ def run(chk, tier):
     binp = os.path.join(wd, "jsreplay")
     go_build("jsreplay", binp)
     tours = run_objarray(chk, wd, binp, thorough)
+    # the Array.prototype methods: ArrayOps.tla (own module, same twin replay)
+    from checks import c07b
+    from vlib import probe_known
+    c07b.run(chk, tier)
+    jsrun = os.path.join(wd, "jsrun")
+    go_build("jsrun", jsrun)
+    probe_known(chk, jsrun, wd)
+    tours += chk.cov.get("traces_validated_against_impl", 0)
+    chk.setcov("arrayops_rule", chk.cov.get("rule", ""))
     chk.setcov("traces_validated_against_impl", tours)
     chk.setcov("exhaustive", thorough)
-    chk.setcov("rule", "every transition of ObjArray.tla (3 abstract indices, element descriptor menu, ArraySetLength with every "
+    chk.setcov("rule", "(1) every transition of ArrayOps.tla, see arrayops_rule; (2) every transition of ObjArray.tla (3 abstract indices, element descriptor menu, ArraySetLength with every "
                "value/writable combination, prototype with indexed properties) replayed on real arrays under 7 order-preserving "
                "index embeddings x {dense, forced sparse, sparse->dense} twins; quick tier replays a rotating sixteenth of the edges per variant")
 
@@ -89,6 +98,9 @@ def replay(path):
     import subprocess
     d = json.load(open(path))
     m = d["replay"]
+    if str(m.get("module", "")).startswith("ArrayOps"):
+        from checks import c07b
+        return c07b.replay(path)
     wd = workdir("C07r")
     binp = os.path.join(wd, "jsreplay")
     go_build("jsreplay", binp)
